@@ -173,6 +173,61 @@ def replay_extract(chk, ex_mod, mode, yval, what):
     chk.harness_error("C19 extract: '%s' did not reproduce" % what)
 
 
+def directory_twin(chk, ex_mod, ge_mod):
+    """Environment twin: the table of a variable sits next to other entries with the same stem (the package's own `cij plot` writes
+    VAR_tp_UNIT.png next to each table; editors leave .bak / ~ copies).  glob returns matches in arbitrary order (its documented
+    contract), so every order of the matches is tried: extract / extract-geotherm must read the table whatever comes first."""
+    import glob as globmod
+    import itertools
+    from click.testing import CliRunner
+    temps = [0.0, 100.0, 250.0, 300.0, 400.0]
+    press = [0.0, 10.0, 25.0, 30.0, 40.0]
+    f = lambda t, p: 100 + 0.37 * t + 2.1 * p
+    tmp = tempfile.mkdtemp(prefix="c19dir_")
+    cwd = os.getcwd()
+    real_glob = globmod.glob
+    bad = None
+    try:
+        Zv = write_tables(tmp, temps, press, f)
+        with open(os.path.join(tmp, "bm_tp_gpa.png"), "wb") as fp:
+            fp.write(b"\x89PNG\r\n\x1a\n" + bytes(range(200, 256)) * 4)
+        with open(os.path.join(tmp, "bm_tp_gpa.txt.bak"), "w") as fp:
+            fp.write(pandas.DataFrame(2 * Zv, index=temps, columns=press).to_string())
+        with open(os.path.join(tmp, "geo.txt"), "w") as fp:
+            fp.write("P T D\n10 100 1\n25 300 2\n")
+        os.chdir(tmp)
+        n_orders = 0
+        for perm_id in range(6):
+            def adversarial(pattern, *a, **k):
+                found = sorted(real_glob(pattern, *a, **k))
+                perms = list(itertools.permutations(found))
+                return list(perms[perm_id % len(perms)]) if found else found
+            globmod.glob = adversarial
+            try:
+                for cmd, args, want in ((ex_mod.main, ["-v", "bm", "-T", "300"], Zv[3, :]), (ge_mod.main, ["-g", "geo.txt", "-v", "bm"], numpy.array([f(100, 10), f(300, 25)]))):
+                    with warnings.catch_warnings():
+                        warnings.simplefilter("ignore")
+                        r = CliRunner().invoke(cmd, args)
+                    n_orders += 1
+                    if r.exit_code != 0:
+                        bad = bad or ("%s %s fails: %r" % (cmd.name, " ".join(args), r.exception))
+                        continue
+                    got = pandas.read_table(io.StringIO(r.output), sep=r"\s+")
+                    if len(got["bm"]) != len(want) or numpy.abs(got["bm"].to_numpy() - want).max() > 1e-6:
+                        bad = bad or ("%s %s returns %s, the table holds %s" % (cmd.name, " ".join(args), got["bm"].tolist()[:3], want.tolist()[:3]))
+            finally:
+                globmod.glob = real_glob
+    finally:
+        globmod.glob = real_glob
+        os.chdir(cwd)
+        import shutil
+        shutil.rmtree(tmp, ignore_errors=True)
+    if bad:
+        chk.violation("extract:reads-sibling-file", "with bm_tp_gpa.png and bm_tp_gpa.txt.bak next to bm_tp_gpa.txt (glob may list them in any order): %s" % bad, {})
+    else:
+        chk.side_check("directory twin: table read whatever other VAR_tp_* entries exist and in whatever order glob lists them (%d runs)" % n_orders, True)
+
+
 def geotherm_obligations(chk, ge_mod, tier, rng):
     temps = [300.0, 500.0, 700.0]
     press = [0.0, 10.0, 20.0, 30.0]
@@ -328,6 +383,7 @@ def main():
     rng = random.Random(seed() + 19)
     extract_obligations(chk, ex_mod, tier, rng)
     geotherm_obligations(chk, ge_mod, tier, rng)
+    directory_twin(chk, ex_mod, ge_mod)
     chk.bound(extract="4 temperatures x 3 pressures, 2 variables, requested value symbolic over the whole range (+-50 beyond)",
               geotherm="3 x 4 table, 3 geotherm rows with symbolic (P, T, D), default and custom column options")
     chk.stub("load_data -> symbolic table (file discovery by glob and pandas parsing are outside); scipy RectBivariateSpline -> uninterpreted "
